@@ -19,6 +19,8 @@ ASSUME = ['stmem.o/mem_node.o/libmem of the scratch copy of the current tree (AS
 
 
 def _build(ctx):
+    # stmem.o / mem_node.o are plain objects of src/ on the mem_hdr_test link line: nothing in test-suite/ rebuilds them
+    ctx.vbuild('src:stmem.o mem_node.o')
     return seq.build(ctx, 'mem_hdr_test', ['C49_memhdr.cc'], subdir='test-suite')
 
 
